@@ -21,7 +21,7 @@ BOUNDS = {
     "quick": "<= 5 outstanding requests of different kinds (call, call with progress+details, acknowledged publish, subscribe, register, unsubscribe, unregister) x 2 router messages, each of 10 kinds with a free request id (0..2^53), error request-type from all 6 kinds, 5 payload shapes; request construction with option objects (free timeout / concurrency integers); IdGenerator one inductive step from an arbitrary state",
     "thorough": "as quick plus 7 outstanding requests x 2 router messages, and 3 router messages (all 10 kinds each, third message with 2 payload shapes) for the two 4-request sets",
 }
-EXPECT_COVERS = ["complete:ok", "complete:err", "progress", "unknown-id:ProtocolError", "wrong-type:ProtocolError", "noise:event", "idgen:wrap", "idgen:step", "req:faithful", "send-fails"]
+EXPECT_COVERS = ["req:options", "complete:ok", "complete:err", "progress", "unknown-id:ProtocolError", "wrong-type:ProtocolError", "noise:event", "idgen:wrap", "idgen:step", "req:faithful", "send-fails"]
 BUDGET = {"quick": dict(wall_s=300, max_paths=30000, diff_samples=4), "thorough": dict(wall_s=2400, max_paths=400000)}
 
 KINDS = ["call", "callp", "publish", "subscribe", "register", "unsubscribe", "unregister"]
@@ -266,6 +266,45 @@ def faithful(sx, which):
     return [which]
 
 
+# option -> (values to try, WAMP default: a value equal to the default may be left off the wire)
+OPTION_SWEEP = {
+    "publish": dict(acknowledge=([True, False], False), exclude_me=([True, False], True), retain=([True, False], False),
+                    exclude=([[], [5], [5, 6], 5], []), exclude_authid=([[], ["a"], "a"], []), exclude_authrole=([[], ["r"], "r"], []),
+                    eligible=([[], [7], [7, 8], 7], None), eligible_authid=([[], ["a"], "a"], None), eligible_authrole=([[], ["r"], "r"], None)),
+    "subscribe": dict(match=(["exact", "prefix", "wildcard"], "exact"), get_retained=([True, False], False)),
+    "register": dict(match=(["exact", "prefix", "wildcard"], "exact"), invoke=(["single", "first", "last", "roundrobin", "random"], "single"),
+                     force_reregister=([True, False], False)),
+    "call": dict(details=([True, False], "n/a")),
+}
+
+
+def option_sweep(sx, kind, opt):
+    """one option at a time, every admissible value including the falsy ones (False, [], scalars): the request message says what the caller said"""
+    from autobahn.wamp import types
+    values, default = OPTION_SWEEP[kind][opt]
+    out = []
+    for v in values:
+        clock, trace, s, t = wamplib.joined_session(sx)
+        if kind == "publish":
+            s.publish("com.myapp.topic", 1, options=types.PublishOptions(**{opt: v}))
+        elif kind == "subscribe":
+            s.subscribe(lambda: None, "com.myapp.topic", options=types.SubscribeOptions(**{opt: v}))
+        elif kind == "register":
+            s.register(lambda: None, "com.myapp.proc", options=types.RegisterOptions(**{opt: v}))
+        else:
+            s.call("com.myapp.proc", options=types.CallOptions(**{opt: v}))
+        m = t.sent[-1]
+        if default == "n/a":
+            continue
+        got = getattr(m, opt)
+        want = [v] if opt != "exclude_me" and opt.startswith(("exclude", "eligible")) and not isinstance(v, list) else v
+        same = (list(got) == list(want)) if isinstance(want, list) and got is not None else (got == want)
+        sx.check(same or (got is None and want == default), "request-carries-the-option-value-(falsy-values-included)", info=dict(kind=kind, option=opt, given=repr(v), on_wire=repr(got)))
+        out.append(repr(got))
+    sx.cover("req:options")
+    return out
+
+
 def object_form(sx, which):
     """subscribe(obj) / register(obj) on an object with several decorated methods: one request per method,
     each with its own fresh id; replies in either order complete their own request"""
@@ -393,6 +432,9 @@ def units(tier):
                               dict(kinds=ks, L=3, details=details, first=first), dict(weight=9)))
     for w in ("call", "call-noopts", "publish", "publish-unack", "subscribe", "register"):
         U.append(("faithful/" + w, "faithful", dict(which=w)))
+    for kind, opts in OPTION_SWEEP.items():
+        for opt in opts:
+            U.append(("options/%s/%s" % (kind, opt), "option_sweep", dict(kind=kind, opt=opt)))
     for k in ("call", "publish"):
         U.append(("sendfails/" + k, "send_fails", dict(kind=k)))
     for w in ("subscribe", "register"):
